@@ -88,6 +88,12 @@ def generate(tier, rng):
                     # the table is that of the parameters given last
                     if k % 2:
                         cases.append(dict(cases[-1], preset=[1 + 1e-6, 1.25, 1 - 3e-6][k % 3]))
+                        # ... whichever of the two tables is asked for first afterwards
+                        if k % 4 == 1:
+                            cases.append(dict(cases[-1], pdf_first=True))
+                    elif k % 4 == 0:
+                        # the same table on a model whose inflow instant and quadrature order were assigned after construction
+                        cases.append(dict(cases[-1], late_rule=True))
     return cases
 
 
@@ -95,7 +101,11 @@ def run_impl(case):
     try:
         dims = sd.mk_dims(case["grid"], case["extra"], case.get("time_letter", "t"))
         lm = sd.mk_lifetime(case, dims)
-        sf, pdf = lm.sf, lm.pdf
+        if case.get("pdf_first"):
+            pdf = lm.pdf
+            sf = lm.sf
+        else:
+            sf, pdf = lm.sf, lm.pdf
     except Exception as e:  # noqa
         return dict(kind="err", exc=type(e).__name__, msg=str(e)[:160])
     snap = False
